@@ -126,7 +126,7 @@ def extract():
 
 # the shapes the hand-written models in Model/StaticEval.v were written against
 EXPECTED = {
-    "static_eval_rq_operator": "b8659d14dbc9c2282a0aef3673f9d75a9b28e024",
+    "static_eval_rq_operator": "a572537d8e8e7f61e2684f486de7c36ecc1e0d9b",   # since /repo 222f71a: std.neg uses checked_neg (i64::MIN is left unevaluated)
     "static_eval_case": "064f0ff64a52050e0b460ee52b2d182231356856",
     "maybe_static_eval": "2fd1ac5c225a8e2597a05cf0625b0dc05934ffaf",
     "is_temporal": "7c715063ddba4cdef69036463f130cd473c6a43b",   # date/time literals are never folded (outside the value model)
